@@ -72,7 +72,7 @@ def run(ctx):
     for e in events[-2:]:
         ctx.sample({k: (v if k != "bytes" else v[:70]) for k, v in e.items()})
     # socket-level tier: the filter / processor wiring of every packet command on a real AF_PACKET socket with kernel BPF, per chunk
-    n3, rej = wt.run_wire(ctx, select=lambda s: s["expect"]["kind"] == "packet" and (s["inject"] or s.get("flood")), label="c03w", focus="reply")
+    n3, rej = wt.run_wire(ctx, select=lambda s: (s["expect"]["kind"] == "packet" and (s["inject"] or s.get("flood"))) or s["expect"]["kind"] == "flap", label="c03w", focus="reply")
     wt.report(ctx, "C03", rej)
     wt.scanrun_validate(ctx, "C03", "c03s")
     # stimuli enumerated by ScanRunGen (frame kind x phase of a two-pass scan), judged by ScanRunTrace
